@@ -3,7 +3,7 @@
    OCaml's own; N, positive, nat, ascii, string, comparison stay Coq datatypes. *)
 Require Extraction.
 Require ExtrOcamlBasic.
-From RC Require Import Base.Res Base.Wire Model.Enums Gen.EnumTables Gen.Merge Model.Open Model.Negotiate Gen.CmpChain Model.Select Model.Nlri Model.NlriOrd Model.AsPath Gen.AttrRules Model.Attr.
+From RC Require Import Base.Res Base.Wire Model.Enums Gen.EnumTables Gen.Merge Model.Open Model.Negotiate Gen.CmpChain Model.Select Model.Nlri Model.NlriOrd Model.AsPath Gen.AttrRules Model.Attr Model.Update.
 Extraction Language OCaml.
 Set Extraction KeepSingleton.
 Extraction "../ocaml/model.ml"
@@ -21,4 +21,9 @@ Extraction "../ocaml/model.ml"
   AsPath.as_path_prepend AsPath.segs_eqb AsPath.path_hash AsPath.hop_count_path_selection
   Wire.unbe Attr.compose Attr.compose_len Attr.wire_attr_parse Attr.to_owned Attr.wattr_code Attr.wattr_flags
   Attr.attr_code Attr.has_ext
+  Wire.be Update.parse_update Update.a_length Update.a_withdrawn_routes_len Update.a_total_path_attribute_len
+  Update.a_path_attributes Update.a_origin Update.a_u32 Update.a_aspath Update.a_as4path Update.a_atomic Update.a_aggregator
+  Update.a_communities Update.a_conv_withdrawals Update.a_conv_announcements Update.a_mp_withdrawals Update.a_mp_announcements
+  Update.a_withdrawals_vec Update.a_announcements_vec Update.a_withdrawals Update.a_announcements Update.a_is_eor
+  Update.a_mp_next_hop Update.a_conventional_next_hop Update.a_pamap Update.pamap_bytes_len Update.range_len Update.fam_of
   EnumTables.all_enum_widths EnumTables.all_enum_names.
